@@ -435,7 +435,7 @@ Definition output_eqb (a b : output) : bool :=
 
 (* ------------------------------------------------------------------ the property, executable *)
 (* An event is what the property speaks about: a call being entered or left. *)
-Record event := mkev { e_open : bool; e_task : nat; e_indent : N; e_name : N; e_dur : N (* fmt code, Close only *); e_time : N }.
+Record event := mkev { e_open : bool; e_task : nat; e_indent : N; e_name : N; e_dur : N (* Close only *); e_time : N }.
 
 (* reference semantics of ONE task: a stack of entry times (no arrays, no look-ahead).
    [stk] holds the entry time of every open call, innermost first. *)
@@ -448,7 +448,7 @@ Fixpoint spec_task (i : nat) (dd : N) (stk : list N) (rs : list rec) : list even
       | EXIT =>
           match stk with
           | t0 :: stk' =>
-              mkev false i (N.pred dd) (r_addr r) (fmt_time (sub64 (r_time r) t0)) (r_time r)
+              mkev false i (N.pred dd) (r_addr r) (r_time r - t0) (r_time r)      (* exit minus entry *)
                 :: spec_task i (N.pred dd) stk' rest
           | [] => []            (* more EXITs than open calls: not a well-formed stream *)
           end
@@ -457,10 +457,77 @@ Fixpoint spec_task (i : nat) (dd : N) (stk : list N) (rs : list rec) : list even
 
 (* frames inherited by a task whose stream does not start at depth 0: they count from the
    first record's time *)
+Definition first_depth (r : rec) : N := match r_type r with ENTRY => r_depth r | EXIT => r_depth r + 1 end.
 Definition spec_start (rs : list rec) : list N :=
   match rs with
   | [] => []
-  | r :: _ => repeat (r_time r) (N.to_nat (match r_type r with ENTRY => r_depth r | EXIT => r_depth r + 1 end))
+  | r :: _ => repeat (r_time r) (N.to_nat (first_depth r))
+  end.
+
+(* reference semantics of the WHOLE replay on the merged stream: every task has a display
+   depth and a stack of entry times; a task's first record sets up the inherited frames and
+   takes over the display depth its parent had inside fork() *)
+Record sstate := mkss { s_set : bool; s_dd : N; s_fork : N; s_stk : list N }.
+Definition sstate0 := mkss false 0 0 [].
+Fixpoint supd (l : list sstate) (i : nat) (x : sstate) : list sstate :=
+  match l, i with
+  | [], _ => []
+  | _ :: t, O => x :: t
+  | h :: t, S i' => h :: supd t i' x
+  end.
+Definition s_inherit (tasks : list task) (S : list sstate) (i : nat) : N :=
+  match k_parent (nth i tasks (mktask None [])) with
+  | Some p => s_fork (nth p S sstate0)
+  | None => 0
+  end.
+Definition s_first (inh : N) (ss : sstate) (r : rec) : sstate :=
+  if s_set ss then ss
+  else mkss true (if inh =? 0 then s_dd ss else inh) (s_fork ss) (repeat (r_time r) (N.to_nat (first_depth r))).
+Fixpoint srun (forks : list N) (tasks : list task) (l : list (nat * rec)) (S : list sstate) : list event :=
+  match l with
+  | [] => []
+  | (i, r) :: tl =>
+      let ss := s_first (s_inherit tasks S i) (nth i S sstate0) r in
+      match r_type r with
+      | ENTRY =>
+          let fk := if existsb (N.eqb (r_addr r)) forks then s_dd ss + 1 else s_fork ss in
+          mkev true i (s_dd ss) (r_addr r) 0 (r_time r)
+            :: srun forks tasks tl (supd S i (mkss true (s_dd ss + 1) fk (r_time r :: s_stk ss)))
+      | EXIT =>
+          match s_stk ss with
+          | t0 :: stk' =>
+              mkev false i (N.pred (s_dd ss)) (r_addr r) (r_time r - t0) (r_time r)
+                :: srun forks tasks tl (supd S i (mkss true (N.pred (s_dd ss)) (s_fork ss) stk'))
+          | [] => []
+          end
+      end
+  end.
+
+(* call forests: the ground truth a task's stream is the trace of *)
+Inductive call := Call (a t0 t1 : N) (kids : list call).
+Fixpoint flat (d : N) (c : call) : list rec :=
+  match c with
+  | Call a t0 t1 kids => mkrec t0 ENTRY d a :: flat_map (flat (d + 1)) kids ++ [mkrec t1 EXIT d a]
+  end.
+Definition flat_forest (d : N) (f : list call) : list rec := flat_map (flat d) f.
+(* the calls of a forest as replay must show them: indentation = nesting depth, duration = t1 - t0 *)
+Fixpoint render (i : nat) (dd : N) (c : call) : list event :=
+  match c with
+  | Call a t0 t1 kids =>
+      mkev true i dd a 0 t0 :: flat_map (render i (dd + 1)) kids ++ [mkev false i dd a (t1 - t0) t1]
+  end.
+Definition render_forest (i : nat) (dd : N) (f : list call) : list event := flat_map (render i dd) f.
+(* calls still open at the end of the data: the innermost one last *)
+Inductive tail := TEnd | TOpen (a t0 : N) (kids : list call) (rest : tail).
+Fixpoint flat_tail (d : N) (t : tail) : list rec :=
+  match t with
+  | TEnd => []
+  | TOpen a t0 kids rest => mkrec t0 ENTRY d a :: flat_forest (d + 1) kids ++ flat_tail (d + 1) rest
+  end.
+Fixpoint render_tail (i : nat) (dd : N) (t : tail) : list event :=
+  match t with
+  | TEnd => []
+  | TOpen a t0 kids rest => mkev true i dd a 0 t0 :: render_forest i (dd + 1) kids ++ render_tail i (dd + 1) rest
   end.
 
 (* well-formed stream: ENTRY/EXIT balanced against the inherited frames, depth fields
@@ -478,7 +545,7 @@ Fixpoint wf_stream (d : N) (last : N) (rs : list rec) : bool :=
 Definition wf_task (t : task) : bool :=
   match k_recs t with
   | [] => true
-  | r :: _ => wf_stream (match r_type r with ENTRY => r_depth r | EXIT => r_depth r + 1 end) 0 (k_recs t)
+  | r :: _ => wf_stream (first_depth r) 0 (k_recs t)
   end.
 
 (* events of an output: a folded leaf is an entry followed by an exit (the exit time of a
@@ -496,7 +563,7 @@ Definition events_of (ls : list line) : list event := flat_map events_of_line ls
 (* comparison of an observed event with the reference one: time only when displayed and known *)
 Definition ev_match (with_time : bool) (obs ref : event) : bool :=
   Bool.eqb (e_open obs) (e_open ref) && Nat.eqb (e_task obs) (e_task ref) && (e_indent obs =? e_indent ref) &&
-  (e_name obs =? e_name ref) && (e_dur obs =? e_dur ref) &&
+  (e_name obs =? e_name ref) && (e_dur obs =? fmt_time (e_dur ref)) &&
   (negb with_time || (e_time obs =? 0) || (e_time obs =? e_time ref)).
 
 Fixpoint sorted_times (last : N) (es : list event) : bool :=
